@@ -315,7 +315,7 @@ func runW7(t *testing.T, job *worlds.Job, seed uint64, rp *worlds.Replay) worlds
 	plugged := make([]bool, nd)
 	open := make([]*w7Dev, nd)
 	openFailsLeft := ops.OpenFails
-	cycles, lastCycleStart := 0, time.Duration(-1)
+	cycles, lastCycleStart, lastCycleStep := 0, time.Duration(-1), -1
 	opens := 0
 	var vio *worlds.Vio
 	var got [][]byte
@@ -365,6 +365,7 @@ func runW7(t *testing.T, job *worlds.Job, seed uint64, rp *worlds.Replay) worlds
 			mu.Lock()
 			cycles++
 			lastCycleStart = simrt.Now()
+			lastCycleStep = simrt.Steps() // simulated time stands still while nothing sleeps: order by scheduling step
 			mu.Unlock()
 			simrt.GoDetached("sim-discovery", func() {
 				announced := map[int]bool{}
@@ -606,8 +607,8 @@ func runW7(t *testing.T, job *worlds.Job, seed uint64, rp *worlds.Replay) worlds
 				mk([]string{"C01", "C16"}, "note_left_sounding", fmt.Sprintf("after %s (the stream of the device that held the key has ended) these notes are still sounding at the receiver: %v", what, on))
 			}
 		}
-		writeFile := func(p string, data []byte, chunks int, create bool) time.Duration {
-			start := simrt.Now()
+		writeFile := func(p string, data []byte, chunks int, create bool) [2]int64 {
+			start := [2]int64{int64(simrt.Steps()), int64(simrt.Now())}
 			flag := os.O_WRONLY | os.O_TRUNC
 			if create {
 				flag |= os.O_CREATE
@@ -636,24 +637,25 @@ func runW7(t *testing.T, job *worlds.Job, seed uint64, rp *worlds.Replay) worlds
 			f.Close()
 			return start
 		}
-		reloaded := func(what string, writeStart time.Duration) {
+		reloaded := func(what string, ws [2]int64) {
+			writeStart := time.Duration(ws[1])
 			// no bound is stated; the manager may legitimately be busy for its own 5 s give-up timer (a device that
 			// cannot be opened) before it looks at the notification: wait 12 simulated seconds before concluding
 			deadline := simrt.Now() + 12*time.Second
 			for {
 				mu.Lock()
-				lc := lastCycleStart
+				ls := lastCycleStep
 				mu.Unlock()
-				if lc > writeStart || simrt.Now() > deadline || failed() {
+				if int64(ls) > ws[0] || simrt.Now() > deadline || failed() {
 					break
 				}
 				simrt.Sleep(50 * time.Millisecond)
 				simrt.WaitIdle()
 			}
 			mu.Lock()
-			lc := lastCycleStart
+			lc, ls := lastCycleStart, lastCycleStep
 			mu.Unlock()
-			if lc <= writeStart && !failed() {
+			if int64(ls) <= ws[0] && !failed() {
 				mk([]string{"C19"}, "modification_not_followed_by_reload", fmt.Sprintf("%s began at t=%v; the last discovery cycle (the devices being reconnected with freshly loaded configurations) started at t=%v, before it", what, writeStart, lc))
 			}
 		}
